@@ -136,27 +136,6 @@ func (s *V2Session) SendCommand(ctx context.Context, c ipmi.Command) (ipmi.Compl
 }
 
 func (s *V2Session) buildAndSend(ctx context.Context, c ipmi.Command) error {
-	s.rmcpLayer = layers.RMCP{
-		Version:  layers.RMCPVersion1,
-		Sequence: 0xFF, // do not send us an ACK
-		Class:    layers.RMCPClassIPMI,
-	}
-	s.v2SessionLayer = ipmi.V2Session{
-		Encrypted:                true,
-		Authenticated:            true,
-		ID:                       s.RemoteID,
-		PayloadDescriptor:        ipmi.PayloadDescriptorIPMI,
-		IntegrityAlgorithm:       s.integrityAlgorithm,
-		ConfidentialityLayerType: s.confidentialityLayer.LayerType(),
-	}
-	s.messageLayer = ipmi.Message{
-		Operation:     *c.Operation(),
-		RemoteAddress: ipmi.SlaveAddressBMC.Address(),
-		RemoteLUN:     c.RemoteLUN(),
-		LocalAddress:  ipmi.SoftwareIDRemoteConsole1.Address(),
-		Sequence:      1, // used at the session level
-	}
-
 	firstAttempt := true
 	terminalErr := error(nil)
 	retryable := func() error {
@@ -164,6 +143,30 @@ func (s *V2Session) buildAndSend(ctx context.Context, c ipmi.Command) error {
 			firstAttempt = false
 		} else {
 			commandRetries.Inc()
+		}
+
+		// decoding a response overwrites these layers, so they must be
+		// rebuilt for every attempt, otherwise a retry would serialise the
+		// response it is retrying after
+		s.rmcpLayer = layers.RMCP{
+			Version:  layers.RMCPVersion1,
+			Sequence: 0xFF, // do not send us an ACK
+			Class:    layers.RMCPClassIPMI,
+		}
+		s.v2SessionLayer = ipmi.V2Session{
+			Encrypted:                true,
+			Authenticated:            true,
+			ID:                       s.RemoteID,
+			PayloadDescriptor:        ipmi.PayloadDescriptorIPMI,
+			IntegrityAlgorithm:       s.integrityAlgorithm,
+			ConfidentialityLayerType: s.confidentialityLayer.LayerType(),
+		}
+		s.messageLayer = ipmi.Message{
+			Operation:     *c.Operation(),
+			RemoteAddress: ipmi.SlaveAddressBMC.Address(),
+			RemoteLUN:     c.RemoteLUN(),
+			LocalAddress:  ipmi.SoftwareIDRemoteConsole1.Address(),
+			Sequence:      1, // used at the session level
 		}
 
 		// TODO handle AuthenticationAlgorithmNone properly
